@@ -168,7 +168,8 @@ def build(doc, flavour, rng):
         elif k == "INCON":
             for i in range(min(s["n"], nblk)):
                 vals = [num(rng) for _ in range(rng.randint(1, 4))]
-                dat.incon[BLOCKS[i]] = [0.125, vals] if i % 2 else [None, vals, 2, 1]
+                # porosity only; both counters; NSEQ with NADD left blank (the counters are separate optional fields)
+                dat.incon[BLOCKS[i]] = [[None, vals, 2, 1], [0.125, vals], [None, vals, 3, None], [0.25, vals, 7, 2]][(i + len(vals)) % 4]
         elif k == "INDOM":
             for i in range(s["n"]):
                 dat.indom[ROCKS[i]] = [num(rng) for _ in range(rng.randint(1, 4))]
